@@ -289,8 +289,12 @@ func caseHG(c *hlib.Ctx) {
 	gn, _ := gen(rawU(u), rawU(u2))
 	s := mat.SampleSource(gn, unit(c), dest)
 	alpha := u2 * math.Pi * 2
-	if !finite(s) {
-		c.Stat("hg.sample-not-finite", 1)
+	if u == 0 || u == float64((1<<53)-1)/(1<<53) || u == 1.0/(1<<53) {
+		c.Stat("hg.u-extreme", 1)
+	}
+	if !finite(s) || !near(s.Norm(), 1, 1e-6) {
+		// the sampler's output is not a direction (valid parameters: numericalG clamps any G, u in [0,1))
+		c.PropFail("prop:c19/hg-sample-not-a-direction", fmt.Sprintf("G=%v dest=%v u=%v u2=%v sample=%v", g0, dest, u, u2, s))
 	}
 	c.Emit(fmt.Sprintf("c19 hgsamp %s %s %s %s %s %s", consts(), hx(g0), hv(dest), hx(u), hx(math.Cos(alpha)), hx(math.Sin(alpha))), ov(s))
 	c.Emit(fmt.Sprintf("c19 hgnum %s %s", consts(), hx(g0)), hx(render3d.VerifHGNumericalG(mat)))
